@@ -19,7 +19,7 @@ class History:
 
     def __init__(self, binary, names, tree, lock=None, structured=False, use_cache=None, base=0, maxid=None,
                  pad=0, crlf=False, unicode_prelude=False, bad=(), extra_files=None, tmp_on_other_fs=False,
-                 label=None):
+                 label=None, config_class="ok", structured_key="explicit", extensions=None):
         self.binary = binary
         self.names = list(names)
         self.structured = structured
@@ -27,7 +27,9 @@ class History:
         self.maxid = maxid if maxid is not None else (BIGMAX if base == 0 else bl.U32MAX - base)
         self.pad, self.crlf, self.unicode_prelude = pad, crlf, unicode_prelude
         self.bad = set(bad)
-        self.proj = bl.Project(structured=structured, use_cache=use_cache, tmp_on_other_fs=tmp_on_other_fs)
+        self.proj = bl.Project(structured=(structured if structured_key == "explicit" else None), use_cache=use_cache,
+                               tmp_on_other_fs=tmp_on_other_fs, extensions=extensions)
+        self.config_class = config_class
         self.use_cache = use_cache
         self.events = []
         self.runs = []          # (index of start event, index of end event, Run, plan, mode)
@@ -43,8 +45,10 @@ class History:
             os.makedirs(os.path.dirname(p), exist_ok=True)
             with open(p, "wb") as fh:
                 fh.write(data if isinstance(data, bytes) else data.encode())
+        self._apply_config_class()
         self.events.append({"ev": "init", "files": self._abs_tree(self.tree), "lock": self.abs_lock,
                             "maxid": self.maxid, "label": self.label})
+        self.last_reports = None
 
     def _norm(self, slots):
         """'unusable' only exists in structured mode; elsewhere such a slot is rendered (and read back) as ignored"""
@@ -55,6 +59,34 @@ class History:
                 s["kind"] = "ignored"
             out.append(s)
         return out
+
+    def _apply_config_class(self):
+        """error classes of C16: the run must exit non-zero without changing anything"""
+        P, c = self.proj, self.config_class
+        self.config_arg = P.config_path
+        if c == "ok":
+            return
+        if c == "missing":
+            os.unlink(P.config_path)
+        elif c == "invalid":
+            with open(P.config_path, "w") as fh:
+                fh.write("---\n: this is invalid YAML\n  -")
+        elif c == "nosourcedir":
+            P.source_dir = "does-not-exist"
+            P.write_config()
+        elif c == "sourcedirfile":
+            with open(os.path.join(P.proj, "afile"), "w") as fh:
+                fh.write("x\n")
+            P.source_dir = "afile"
+            P.write_config()
+        elif c == "noinscope":
+            P.extensions = ["zzz"]
+            P.write_config()
+        elif c == "nomacros":
+            with open(P.config_path, "w") as fh:
+                fh.write("---\nsource_dir: src\nrust:\n  structured: false\n")
+        else:
+            raise ToolError("unknown config class " + c)
 
     # -- id scaling -------------------------------------------------------------------------
     def real_id(self, a):
@@ -144,6 +176,7 @@ class History:
                 self.tree[n] = self._norm(newtree.get(n, []))
                 self._materialise(n)
         self.events.append({"ev": "dev", "files": self._abs_tree(self.tree), "lock": self.abs_lock})
+        self.last_reports = None
 
     def dev_set_lock(self, lock):
         self.proj.set_lock(self._real_lock(lock))
@@ -170,8 +203,9 @@ class History:
         exp_missing = self.expected_missing()
         readable = [n for n in self.names if self.present[n] and n not in self.bad]
         start_idx = len(self.events)
-        self.events.append({"ev": "start", "mode": mode, "cache": cache, "any_readable": bool(readable), "plan": plan})
-        r = bl.run_breadlog(self.binary, P.config_path, check=(mode == "check"), tmpdir=P.tmp,
+        self.events.append({"ev": "start", "mode": mode, "cache": cache, "any_readable": bool(readable), "plan": plan,
+                            "must_fail": self.config_class != "ok"})
+        r = bl.run_breadlog(self.binary, self.config_arg, check=(mode == "check"), tmpdir=P.tmp,
                             roots=(P.proj, P.tmp), plan=plan, timeout=timeout, cwd=cwd, logdir=P.tmp)
         snap1 = bl.snapshot(snap_dirs)
         # ---- post-state
@@ -234,12 +268,30 @@ class History:
                 reported.append(line_uid.get((f, ln), -7))
             t = r.total_missing()
             total = t if t is not None else -1
+        pos_match = True
+        if mode == "check" and r.exit_class in (0, "nonzero") and not plan:
+            self.last_reports = (dict(before), sorted(r.missing_reports()))
+        elif mode == "edit":
+            if self.last_reports is not None and self.last_reports[0] == before and r.exit_class == 0 and not plan:
+                ins = []
+                for pth in sorted(before):
+                    if pth in after and after[pth] != before[pth]:
+                        ok, toks = monitors.pure_insertion(before[pth], after[pth])
+                        if ok:
+                            for (ob, oa, tok, ident) in toks:
+                                ln, col = monitors.line_col(None, ob, data=before[pth])
+                                ins.append((pth, ln, col))
+                pos_match = sorted(ins) == self.last_reports[1]
+                if not pos_match:
+                    self.pos_mismatch = {"reported": self.last_reports[1][:10], "inserted": sorted(ins)[:10]}
+            self.last_reports = None
         cnt = r.inserted_count() if mode == "edit" else None
         exitc = {0: 0, "nonzero": 2, "signal": 130, "killed": 137, "panic": 101, "timeout": 124}[r.exit_class]
         self.events.append({"ev": "end", "exit": exitc, "files": self._abs_tree(self.tree), "lock": self.abs_lock,
                             "cls": cls, "pure": pure, "tmpleft": len(P.tmp_entries()), "snapeq": snapeq,
                             "others_same": others_same, "reported": sorted(reported), "total": total,
-                            "count": cnt if cnt is not None else -1, "rc": r.rc if r.rc is not None else -1})
+                            "count": cnt if cnt is not None else -1, "rc": r.rc if r.rc is not None else -1,
+                            "pos_match": pos_match})
         self.runs.append({"start": start_idx, "end": len(self.events) - 1, "run": r, "plan": plan, "mode": mode})
         return r
 
